@@ -125,6 +125,36 @@ def check(ctx):
         add_run(c, *probes[pi])
         hist_cases.append(c)
         meta[c.id] = (h, pi)
+    # a very long accepted text first (anything sized by the longest input seen so far), then probes whose result is sensitive to
+    # the size of per-thread tables: keyword directives in white space that is lexed under several alternatives (classes D11 / D12)
+    def sens(nsum):
+        e = "+".join("x%d" % i for i in range(nsum))
+        return ("parse_sv_str", "module top;\nsub `begin_keywords \"1364-2001\"\n #(%s, 1) (a, b);\n`end_keywords\nwire logic;\nendmodule\n" % e, None)
+    long_text = "/*\n" + " * lorem ipsum dolor sit amet, consectetur adipiscing elit, sed do eiusmod\n" * 2800 + " */\nmodule a;\nendmodule\n"
+    long_mods = "".join("module lm%d; wire w%d; endmodule\n" % (i, i) for i in range(2600))
+    sens_probes = [sens(20), sens(40), sens(60)] + [("parse_sv_str", w["source"], None) for w in
+                   json.load(open(os.path.join(VERIF, "corpus", "C17-D12.json")))["witnesses"][:6]]
+    base_n = len(probes)
+    probes += sens_probes
+    for j in range(len(sens_probes)):
+        c = Case("f%d" % (base_n + j))
+        files(c)
+        c.add("want", "tree", "defines", "text")
+        add_run(c, *sens_probes[j])
+        ref_cases.append(c)
+    nh2 = nh
+    for lt in (long_text, long_mods):
+        for j in range(len(sens_probes)):
+            if q and j not in (1, 3):
+                continue
+            c = Case("hL%d" % nh2); nh2 += 1
+            files(c)
+            c.add("want", "tree", "defines", "text", "state")
+            h = [("parse_sv_str", lt, None)]
+            add_run(c, *h[0])
+            add_run(c, *probes[base_n + j])
+            hist_cases.append(c)
+            meta[c.id] = ([("parse_sv_str", lt[:60] + "... (%d bytes)" % len(lt), None)], base_n + j)
     # long histories over many different constructs (per-thread tables that only ever fill up)
     allsn = snippets.sv_sources()
     for n in range(nh, nh + (2 if q else 12)):
